@@ -67,6 +67,7 @@ def cases(draw):
         rnd.prog.insert(1, ["at", "ExcludeRegion", "off"])
     for o in abstract:
         rnd.op(o)
+    rnd.prog = gen.respell_prog(rnd.prog, draw(st.sampled_from(["plain", "plain", "plain", "compact", "plus"])))
     regions = []
     if mode == "disabled":
         regions = cands
